@@ -3,7 +3,7 @@ import vf
 
 INV = ["OutIsExportView", "NeverNoAdvertise", "NeverNoExportToEBGP", "EBGPPrependsAndNextHopSelf",
        "ReflectedCarryOriginatorAndCluster", "NoOTCToProviderPeerRS", "OTCToCustomerPeerRSClient", "NoIBGPToNonClient"]
-ALLSESS = {"ebgp", "ebgpRS", "ibgp", "ibgpRR", "ebgpAP", "ibgpRRAP", "toCustomer", "toPeer", "toProvider", "toRS", "toRSClient"}
+ALLSESS = {"ebgp", "ebgpRS", "ibgp", "ibgpRR", "ebgpAP", "ibgpRRAP", "ibgpAP", "toProviderAP", "toCustomer", "toPeer", "toProvider", "toRS", "toRSClient"}
 PFX2 = "{<<0>>, <<0,1>>}"
 PFX1 = "{<<0>>}"
 
